@@ -21,8 +21,12 @@ def handle (kind : String) (args : List String) (impl : String) : String :=
       let unjustified := ((o.replies.zip p.replies).zip o.reachable).any fun ((m, i), reach) =>
         reach && containsErr i "E" && (i.startsWith "E" || i.startsWith "[") &&
           (strict || !(containsErr m "Eunreachable"))
+      -- a command whose keys are all reachable returns the single server's reply
+      let wrong := ((o.replies.zip p.replies).zip o.reachable).any fun ((m, i), reach) =>
+        reach && !(containsErr m "Eunreachable") && !(sameReply m i)
       let sp :=
         if leaked then "redirection-error-reached-the-client"
+        else if wrong || p.replies.length != o.replies.length then "reply-differs-from-a-single-server"
         else if unjustified then "error-reply-although-every-owning-node-is-reachable"
         else ""
       let ss := if sp == "" then "" else s!"SPEC {sp} impl={impl}"
